@@ -500,8 +500,10 @@ func modelItoa(e *Exec, c *frame, fn *ssa.Function, a []Value) Value {
 	return e.decimal(v)
 }
 
-// decimal renders 0 <= v < 100000 as decimal digits (symbolic content,
-// concrete length decided by forking on the magnitude).
+// decimal renders 0 <= v < 100000 as decimal digits. The digits are fresh
+// symbols tied to v by v = sum d_i*10^i with 0 <= d_i <= 9 (the decimal
+// representation is unique, so this relational model is exact); it avoids
+// division by constants, which bit-blasting solvers handle badly.
 func (e *Exec) decimal(v sym.Sc) Slice {
 	nd := 1
 	for _, lim := range []int{10, 100, 1000, 10000} {
@@ -510,15 +512,17 @@ func (e *Exec) decimal(v sym.Sc) Slice {
 		}
 		nd++
 	}
+	v32 := sym.Trunc(v, 32)
 	st := e.newStore(byteT, i64(nd))
-	rem := v
-	pow := []int{1, 10, 100, 1000, 10000}
+	pow := []uint64{1, 10, 100, 1000, 10000}
+	sum := sym.Const(32, 0)
 	for i := 0; i < nd; i++ {
-		p := i64(pow[nd-1-i])
-		d := sym.UDiv(rem, p)
-		rem = e.norm(sym.URem(rem, p))
-		*st.cell(i) = e.norm(sym.Add(sym.Trunc(d, 8), sym.Const(8, '0')))
+		d := e.Internal(8, "digit")
+		e.S.Emit("(assert " + sym.Ule(d, sym.Const(8, 9)).Term() + ")")
+		sum = sym.Add(sum, sym.Mul(sym.ZeroExt(d, 32), sym.Const(32, pow[nd-1-i])))
+		*st.cell(i) = e.norm(sym.Add(d, sym.Const(8, '0')))
 	}
+	e.S.Emit("(assert " + sym.Eq(v32, sum).Term() + ")")
 	return Slice{St: st, Len: st.N, Cap: st.N}
 }
 
